@@ -1,0 +1,51 @@
+//go:build verif
+
+package agent
+
+import (
+	"io"
+
+	"github.com/postalsys/muti-metroo/internal/crypto"
+	"github.com/postalsys/muti-metroo/internal/shell"
+)
+
+// Read-only accessors for the verification harness (build tag verif only):
+// remote shell and file transfer tunnels.
+
+// VerifShellHandler returns the exit-side shell handler.
+func (a *Agent) VerifShellHandler() *shell.Handler { return a.shellHandler }
+
+// VerifShellClientKeys returns, per first-hop stream id, the end-to-end session
+// key of every shell session this agent opened as the client (ingress) side.
+func (a *Agent) VerifShellClientKeys() map[uint64]*crypto.SessionKey {
+	out := map[uint64]*crypto.SessionKey{}
+	a.shellClientMu.RLock()
+	defer a.shellClientMu.RUnlock()
+	for id, ad := range a.shellClientStreams {
+		out[id] = ad.GetSessionKey()
+	}
+	return out
+}
+
+// VerifFileStreamKeys returns, per stream id, the end-to-end session key of
+// every file transfer this agent currently serves (exit side).
+func (a *Agent) VerifFileStreamKeys() map[uint64]*crypto.SessionKey {
+	out := map[uint64]*crypto.SessionKey{}
+	a.fileStreamsMu.RLock()
+	defer a.fileStreamsMu.RUnlock()
+	for id, fts := range a.fileStreams {
+		out[id] = fts.sessionKey
+	}
+	return out
+}
+
+// VerifDownloadReaderKey returns the end-to-end session key and the first-hop
+// stream id behind the reader of a DownloadFileStream result (nil, 0 for any
+// other reader).
+func VerifDownloadReaderKey(r io.Reader) (*crypto.SessionKey, uint64) {
+	sr, ok := r.(*streamReader)
+	if !ok || sr.stream == nil {
+		return nil, 0
+	}
+	return sr.sessionKey, sr.stream.ID
+}
